@@ -289,7 +289,9 @@ def oracle(case):
         s = sa.Scores(pos, neg, nb_easy_pos=case["ep"], nb_easy_neg=case["en"], score_class=case["sc"], equal_class=case["ec"])
         tgt = np.array(case["t"])
         allv = np.sort(np.concatenate([pos, neg]))
-        for metric in ("fnr", lambda o, th: o.topr(th) - 0.5 * o.fpr(th)):
+        # metrics by name and callables whose values leave [0,1]; targets inside, on the boundary of and outside the range of values
+        for metric, tgt in (("fnr", np.array(case["t"] + [-0.2, 1.1])), (lambda o, th: o.topr(th) - 0.5 * o.fpr(th), np.array(case["t"] + [-0.3, -0.5, 1.4])),
+                            (lambda o, th: 100.0 * o.fnr(th), np.array([0.0, 30.0, 50.0, 100.0, 130.0])), (lambda o, th: -o.tnr(th), np.array([-1.0, -0.5, -0.25, 0.0, 0.5]))):
             f = (lambda th: getattr(sa.Scores, metric)(s, th)) if isinstance(metric, str) else (lambda th: metric(s, th))
             with np.errstate(all="ignore"):
                 for pts, xs in ((None, allv), (5, np.linspace(allv[0], allv[-1], 5)), (np.array([allv[0] - 1, allv[0], allv[-1] + 0.5]), np.array([allv[0] - 1, allv[0], allv[-1] + 0.5]))):
